@@ -337,7 +337,8 @@ JConvertPlan(e, st) ==
       joint == [i \in DOMAIN e.out.joint |-> MembersOfJson(e.out.joint[i])]
       adm(dv) == IF ~SeqRun(D, u, seqPlan, init, Eps, dv).ok THEN TRUE        \* not a valid sequential plan: outside C15
                  ELSE IF Has(e.out, "exc")
-                      THEN "ConvertNonCommuting" \in dv /\ NonCommutingWindow(D, u, seqPlan, agents, init, Eps, dv \ {"ConvertNonCommuting"})
+                      THEN \/ "ConvertNonCommuting" \in dv /\ NonCommutingWindow(D, u, seqPlan, agents, init, Eps, {}, FALSE)
+                           \/ "ConvertForallUnseen" \in dv /\ NonCommutingWindow(D, u, seqPlan, agents, init, Eps, {}, TRUE)
                       ELSE /\ ValidConversion(D, u, seqPlan, joint, agents, init, Eps, dv)
                            /\ (Has(e.out, "file") => e.out.file = e.out.joint)      \* export_plan writes that joint plan
   IN  WithDevs(adm, IF Has(e.out, "exc") THEN "ConvertPlan:exception" ELSE "ConvertPlan:invalid-conversion", st)
